@@ -355,6 +355,7 @@ fn main() {
         let (o, secs) = run_case(&large, &variants_all[0], Fm::Rustfmt, Some(&path), &cfg, Duration::from_secs(8));
         println!("hang-demo: observed {} after {secs:.1}s", short(&o));
         let _ = std::process::Command::new("pkill").arg("-f").arg(path.to_string_lossy().as_ref()).status();
+        let _ = std::fs::remove_dir_all(&scratch.0);
         std::process::exit(0);
     }
     let mut fails: Vec<Fail> = vec![];
@@ -597,7 +598,9 @@ fn main() {
     );
     util::write(&args.out.join("report.json"), &report);
     println!("c15: evaluations={} distinct={} failures={} max_write_seconds={:.1}", evaluations, distinct.len(), fails.len(), max_secs);
-    // threads of hung writes (if any) must not keep the process alive
+    // threads of hung writes (if any) must not keep the process alive; `exit` skips destructors, so
+    // remove the scratch directory by hand
+    let _ = std::fs::remove_dir_all(&scratch.0);
     std::process::exit(0);
 }
 
